@@ -443,8 +443,8 @@ def save_score_midi(
                         measure.start.t
                     )  # keep track of changing the ts
                     fitted_measure_time.append(measure.start.t)
-                    # now go back to original ts if there is no ts change after this measure
-                    if not any([ts_t > measure.start.t for ts_t in ts_changing_time]):
+                    # now go back to original ts if there is no ts change right after this measure
+                    if not any([ts_t == measure.end.t for ts_t in ts_changing_time]):
                         meta_events[part][to_ppq(measure.end.t)].append(
                             MetaMessage(
                                 "time_signature",
